@@ -46,6 +46,15 @@ Whys(e) ==
     [] e.op = "newchar" ->
          <<IF e.fields = DefaultChar(e.k) THEN "ok" ELSE "P:C16:NewCharRecipe-defaults-are-not-everything-allowed-minus-ambiguous",
            IF e.alpha = SortedSeq(Alphabet(DefaultChar(e.k))) THEN "ok" ELSE "P:C16:default-character-recipe-alphabet-differs">>
+    [] e.op = "newcharreq" ->    \* the constructor's recipe with the classes e.require required: same alphabet, passwords inside it
+         LET r == [DefaultChar(e.k) EXCEPT !.require = e.require]
+             al == Alphabet(r)
+         IN <<IF e.fields = r THEN "ok" ELSE "P:C16:NewCharRecipe-defaults-are-not-everything-allowed-minus-ambiguous",
+              IF e.alpha = SortedSeq(al) /\ al = FlagChars(15) \ FlagChars(Ambiguous) THEN "ok" ELSE "P:C16:default-character-recipe-alphabet-differs",
+              IF \A i \in DOMAIN e.pws : \A j \in DOMAIN e.pws[i] : e.pws[i][j] \in al THEN "ok"
+                ELSE "P:C16:default-character-recipe-returned-an-ambiguous-or-foreign-character">>
+    [] e.op = "classex" ->
+         <<IF e.alpha = SortedSeq(FlagChars(15) \ FlagChars(e.flag)) THEN "ok" ELSE "P:C16:built-in-character-class-differs-from-the-documented-one">>
     [] e.op = "newwl" ->
          <<IF e.len = e.k /\ e.cap = "none" /\ e.sepChar = <<>> /\ e.sepFuncNil = 1 /\ e.size = 3 THEN "ok"
            ELSE "P:C16:NewWLRecipe-defaults-are-not-no-capitalisation-and-no-separator">>
